@@ -105,6 +105,10 @@ struct Peer {
 	size_t consumed = 0; // bytes the client has read
 	Bytes out_stream; // bytes the client sent on this connection
 	size_t out_parsed = 0;
+	int frag_gen = -1; // connection on which a PDU was abandoned half-way after a failed write
+	Bytes cur_pdu_full, frag_full;
+	size_t frag_written = 0;
+	bool frag_retry_watch = false;
 	int cur_x = -1;
 	unsigned recv_calls = 0, send_calls = 0; // within current exchange
 	J faults; // transport faults of the current exchange
